@@ -275,6 +275,12 @@ pub fn run(ctx: &Ctx) {
     }
     ctx.sample(json!({"spelling":"JNBE","source":"back: stc\\nstart: JNBE fwd\\nJNBE back\\nfwd: hlt","flags":"0000..FFFF","expected":"JMP(3)/JMP(0) iff CF=0 and ZF=0"}));
     ctx.sample(json!({"spelling":"loopne","cx":"0000..FFFF","zf":[0,1],"expected":"CX-=1; jump iff CX!=0 and ZF=0"}));
+    // L3: the same instructions inside whole programs through the real driver loop (forward targets, self-targeting
+    // LOOPx, counted backward loops), flags established with PUSH/POPF, registers printed afterwards
+    crate::l3fam::run(ctx, crate::l3fam::Fam::Jumps, ctx.tier.pick(400usize, 6000usize));
+    for c in ["l3/jump/taken", "l3/jump/not-taken", "l3/jump/self-target-repeated", "l3/jump/backward-loop-iterated"] {
+        ctx.require_class(c, 10);
+    }
     // grammar cross-check: every jump/loop terminal in the working tree's grammar is in our table
     crate::grammar::crosscheck_jumps(ctx, &spellings, &lsp);
 }
